@@ -1,9 +1,10 @@
 import EqsigVerif.Handlers.Displacements
+import EqsigVerif.Handlers.Peaks
 /-! table of all driver handlers -/
 namespace EqsigVerif.Handlers
 open EqsigVerif.Wire
 
 def table : List (String × Handler) :=
-  Displacements.handlers
+  Displacements.handlers ++ Peaks.handlers
 
 end EqsigVerif.Handlers
